@@ -88,3 +88,72 @@ def extra(ctx, rep):
                         f"position in {fa.qualname} (`{norm(na)[:60]}`): with a non-trainable argument before a trainable one the two refer to different slots",
                         optimizer=c.name)
     rep.floor("optimizer classes with an indexed accumulator", n_cls, 5)
+
+
+def tstep(ctx, rep):
+    """R-C61-tstep: the step counter of an optimizer advances once per optimisation step."""
+    ix = ctx.index
+    rep.rule("R-C61-tstep", "every `self.<counter> += 1` / `self.accumulation['<key>'] += 1` in an optimizer class runs once per step: it is neither inside "
+             "a loop of its own method nor in a method that another method of the class calls from inside a loop (the per-argument loop of "
+             "apply_grad): Adam's bias correction, SPSA's gain sequences and the shot-adaptive schedule are functions of the step number")
+    n = 0
+    for c in ix.classes:
+        rel = c.module.relpath
+        if not rel.startswith("pennylane/optimize/"):
+            continue
+        for name, fl in c.methods.items():
+            for f in fl:
+                incs = []
+                parents = {}
+                for p_ in ast.walk(f.node):
+                    for ch in ast.iter_child_nodes(p_):
+                        parents[ch] = p_
+                for n_ in ast.walk(f.node):
+                    if isinstance(n_, ast.AugAssign) and isinstance(n_.op, ast.Add) and isinstance(n_.value, ast.Constant) and n_.value.value == 1:
+                        t = n_.target
+                        if (isinstance(t, ast.Attribute) and isinstance(t.value, ast.Name) and t.value.id == "self") or (
+                                isinstance(t, ast.Subscript) and isinstance(t.value, ast.Attribute) and isinstance(t.value.value, ast.Name)
+                                and t.value.value.id == "self" and isinstance(t.slice, ast.Constant) and isinstance(t.slice.value, str)):
+                            incs.append(n_)
+                for inc in incs:
+                    n += 1
+                    rep.analysed(rel, f.qualname)
+                    where = f"{rel}:{f.qualname} `{norm(inc)}`"
+                    x = inc
+                    in_loop = None
+                    while x in parents and parents[x] is not f.node:
+                        x = parents[x]
+                        if isinstance(x, (ast.For, ast.While, ast.ListComp, ast.GeneratorExp)):
+                            in_loop = x
+                            break
+                    if in_loop is not None:
+                        rep.refuted("R-C61-tstep", rel, f.qualname, inc,
+                                    f"`{norm(inc)}` sits inside `{norm(in_loop).splitlines()[0][:60]}`: the step counter advances once per loop iteration "
+                                    "(per trainable argument) instead of once per optimisation step", line=inc.lineno)
+                        continue
+                    # callers inside loops (methods of the class hierarchy that resolve to this class's method)
+                    bad = None
+                    for k in ix.classes:
+                        if c not in k.mro() and k not in c.mro():
+                            continue
+                        for nm2, fl2 in k.methods.items():
+                            for g in fl2:
+                                if g is f:
+                                    continue
+                                for loop in [y for y in ast.walk(g.node) if isinstance(y, (ast.For, ast.While))]:
+                                    for call in [y for b_ in loop.body for y in ast.walk(b_) if isinstance(y, ast.Call)]:
+                                        if isinstance(call.func, ast.Attribute) and isinstance(call.func.value, ast.Name) and call.func.value.id == "self" \
+                                                and call.func.attr == name:
+                                            # does `self.<name>` of class k resolve to f?
+                                            dc, rf = k.lookup(name)
+                                            if rf is f or (isinstance(rf, type(f)) and rf.node is f.node):
+                                                bad = (g, loop, call)
+                    if bad:
+                        g, loop, call = bad
+                        rep.refuted("R-C61-tstep", rel, f.qualname, inc,
+                                    f"`{norm(inc)}` is executed by `{f.name}`, which `{g.qualname}` calls inside `{norm(loop).splitlines()[0][:60]}`: the step "
+                                    "counter advances once per trainable argument instead of once per optimisation step, so with two or more trainable "
+                                    "arguments the bias-corrected step size is computed for the wrong step number", line=inc.lineno)
+                    else:
+                        rep.proved("R-C61-tstep", where, "runs once per call of its method; the method is not called from a loop of the class")
+    rep.floor("step-counter increments in optimizer classes", n, 4)
